@@ -22,13 +22,14 @@ structure OpSpec where
   interpret : List Arg → Fields → Res              -- reply fields by name ↦ result
 
 def a (xs : List Arg) (i : Nat) : Arg := xs.getD i .absent
-def nat (x : Arg) : Nat := match x with | .v (.u32 n) => n | .v (.u16 n) => n | .v (.u8 n) => n.toNat | _ => 0
+def n32 (x : Arg) : Nat := match x with | .v (.u32 n) => n | _ => 0
+def n8 (x : Arg) : Nat := match x with | .v (.u8 n) => n.toNat | _ => 0
 def valOr (x : Arg) (d : Val) : Val := match x with | .v y => y | _ => d
 def boolOr (x : Arg) : Val := match x with | .v (.bool b) => .bool b | _ => .bool false
 def u8Or (x : Arg) : Val := match x with | .v (.u8 b) => .u8 b | _ => .u8 0
 def low8 (x : Arg) : Val := match x with | .int n => .u8 (UInt8.ofNat (n % 256).toNat) | .v (.u8 n) => .u8 n | _ => .u8 0
-def serial (xs : List Arg) : Val := .u32 (nat (a xs 0))
-def noId (xs : List Arg) : Bool := nat (a xs 0) == 0
+def serial (xs : List Arg) : Val := .u32 (n32 (a xs 0))
+def noId (xs : List Arg) : Bool := n32 (a xs 0) == 0
 def magic : Val := .u32 0x55aaaa55
 
 /-- Wiegand-26: facility code 0..255 followed by a five-digit number 0..65535 -/
@@ -119,13 +120,13 @@ def ops : List OpSpec := [
   { simple "GetCardByID" 0x5a "GetCardByIDRequest" "GetCardByIDResponse" with
     fields := fun xs => [("SerialNumber", serial xs), ("CardNumber", valOr (a xs 1) .none_)],
     interpret := fun xs fs => match get fs "CardNumber" with
-      | .u32 n => if n = 0 then .nil else if n ≠ nat (a xs 1) then .err else card fs
+      | .u32 n => if n = 0 then .nil else if n ≠ n32 (a xs 1) then .err else card fs
       | _ => .err },
   { name := "PutCard", code := 0x50, request := "PutCardRequest", reply := some "PutCardResponse",
     rejects := fun xs =>
-      let c := nat (a xs 1)
-      noId xs || c == 0 || c == 0xffffffff || c == 0x00ffffff || nat (a xs 8) > 999999 ||
-      !formatsOk c (match a xs 9 with | .list fs => fs | _ => []),
+      let c := n32 (a xs 1)
+      noId xs || c == 0 || c == 0xffffffff || c == 0x00ffffff ||
+      !formatsOk c (match a xs 9 with | .list fs => fs | _ => []) || n32 (a xs 8) > 999999,
     fields := fun xs => [("SerialNumber", serial xs), ("CardNumber", valOr (a xs 1) .none_), ("From", valOr (a xs 2) .none_),
       ("To", valOr (a xs 3) .none_), ("Door1", u8Or (a xs 4)), ("Door2", u8Or (a xs 5)), ("Door3", u8Or (a xs 6)),
       ("Door4", u8Or (a xs 7)), ("PIN", valOr (a xs 8) .none_)],
@@ -139,7 +140,7 @@ def ops : List OpSpec := [
     interpret := fun xs fs => match get fs "ProfileID" with
       | .u8 n =>
         if n = 0 then .nil                                              -- no such profile
-        else if n.toNat ≠ nat (a xs 1) then .err                         -- echoed id differs
+        else if n.toNat ≠ n8 (a xs 1) then .err                         -- echoed id differs
         else .vals ([.u8 n, get fs "LinkedProfileID", get fs "From", get fs "To", get fs "Monday", get fs "Tuesday",
           get fs "Wednesday", get fs "Thursday", get fs "Friday", get fs "Saturday", get fs "Sunday",
           hmVal (get fs "Segment1Start"), hmVal (get fs "Segment1End"), hmVal (get fs "Segment2Start"),
@@ -180,7 +181,7 @@ def ops : List OpSpec := [
     fields := fun xs => [("SerialNumber", serial xs), ("Index", valOr (a xs 1) .none_), ("MagicWord", magic)],
     interpret := fun xs fs => .vals [get fs "SerialNumber", valOr (a xs 1) .none_, get fs "Changed"] },
   { name := "SetDoorPasscodes", code := 0x8c, request := "SetDoorPasscodesRequest", reply := some "SetDoorPasscodesResponse",
-    rejects := fun xs => noId xs || nat (a xs 1) < 1 || nat (a xs 1) > 4,
+    rejects := fun xs => noId xs || n8 (a xs 1) < 1 || n8 (a xs 1) > 4,
     fields := fun xs =>
       let ps := match a xs 2 with | .list ps => ps | _ => []
       [("SerialNumber", serial xs), ("Door", u8Or (a xs 1)), ("Passcode1", code4 ps 0), ("Passcode2", code4 ps 1),
